@@ -75,6 +75,11 @@ func jarCorpus(je *jarEngine) {
 	runReuse("host-key-aliases-caller-uri", opSet("Set", "h1.test", jc("np1")), opSet("Set", "h1.test", jc("np2")), opGet("h2.test", "/"), opGet("h1.test", "/"))
 	// Get hands out the stored objects although its documentation says they are copies
 	runReuse("release-returned-cookies", opSet("SetByHost", "h1.test", jc("root")), jarOp{Op: "get", Host: "h1.test", Path: "/", RelRet: true}, opGet("h1.test", "/"))
+	// IPv6 literals: the host is what stands between the brackets
+	run("ipv6-hosts-differ-in-last-group", opSet("SetByHost", "[2001:db8::a]", jc("root")), opGet("[2001:db8::b]", "/"), opGet("[2001:db8::a]", "/"),
+		opCycle("[2001:db8::b]", "/", jcDel("root", "max-age-0")), opGet("[2001:db8::a]", "/"))
+	run("ipv6-port-insensitive", opSet("SetByHost", "[2001:db8::a]:8080", jc("root")), opGet("[2001:db8::a]", "/"))
+	run("ipv6-host-with-port", opSet("SetByHost", "[2001:db8::a]:8080", jc("root")), opGet("[2001:db8::a]:8080", "/"), opGet("[2001:db8::b]:8080", "/"))
 	// sanity: these hold on a correct jar and on this one
 	run("sanity-expires", opSet("SetByHost", "h1.test", jcExp("root", 2)), opGet("h1.test", "/"), opAdv(3), opGet("h1.test", "/"))
 	run("sanity-hosts", opSet("SetByHost", "h1.test", jc("root")), opSet("SetKeyValue", "h2.test", jc("np1")),
